@@ -193,8 +193,8 @@ def compare_query(q, m, i):
     """None if model answer m and implementation answer i agree on query q"""
     k = q["q"]
     if "err" in m or "err" in i:
-        if m.get("err") == "fuel":
-            return None
+        if m.get("err") == "fuel" and k.startswith("multiple"):
+            return None          # automaton_multiple has no proved fuel bound; every other loop of the model has one
         return None if m.get("err") == i.get("err") else "error"
     m, i = m["ok"], i["ok"]
     if k in ("follow", "accepts", "prefix", "rejprefix"):
